@@ -44,11 +44,16 @@ structure Store where
   groups : List (Nat × Group)
   configs : List (Nat × Config)
   layouts : List ((Nat × Nat) × (List Nat × List Nat × List Nat))
-    -- (topic, partition) ↦ (replicas, isr, offline replicas) IN STORED ORDER (first replica = preferred
-    -- leader; duplicates allowed); partitions without an entry have the CreateTopic layout ([0], [0], [])
+    -- (topic, POSITION in the topic's Partitions array) ↦ (replicas, isr, offline replicas) IN STORED ORDER
+    -- (first replica = preferred leader; duplicates allowed); entries without a layout have the CreateTopic
+    -- layout ([0], [0], []).  For every topic but a `ptopic` the position equals the partition id.
+  partIds : List (Nat × List Nat)
+    -- topic ↦ the partition ids of its Partitions array IN STORED ORDER, for topics populated with an
+    -- out-of-order / duplicate-carrying array (`ptopic`: e.g. a snapshot listing partitions 2,0,1); topics
+    -- without an entry hold ids 0..n-1 ascending (what CreateTopic builds)
 deriving Repr, DecidableEq
 
-def empty (brokers : Nat) : Store := ⟨brokers, [], [], [], [], [], []⟩
+def empty (brokers : Nat) : Store := ⟨brokers, [], [], [], [], [], [], []⟩
 
 /-- the replica / ISR / offline lists the harness gives partition `p` of an `rtopic … v` topic:
 non-ascending, rotated and duplicate-carrying lists -/
@@ -58,6 +63,10 @@ def layoutOf (v p : Nat) : List Nat × List Nat × List Nat :=
   (layoutTable.getD ((v + p) % 6) [], layoutTable.getD ((v + 2 * p + 3) % 6) [],
    if v % 2 = 1 then layoutTable.getD ((v + p + 1) % 6) [] else [])
 
+
+/-- the partition-id orders the harness gives a `ptopic … o …` topic: non-ascending, some with duplicate ids
+and with gaps (same table in the Go harness) -/
+def partOrderTable : List (List Nat) := [[2, 0, 1], [1, 0], [2, 1, 0], [1, 1, 0], [0, 2, 1, 1], [3, 0, 2, 1], [4, 2]]
 
 def alookup {κ β : Type} [DecidableEq κ] (m : List (κ × β)) (k : κ) : Option β :=
   match m with
@@ -74,6 +83,9 @@ def aset {κ β : Type} [DecidableEq κ] (m : List (κ × β)) (k : κ) (v : β)
 
 def partitionLayout (s : Store) (t p : Nat) : List Nat × List Nat × List Nat :=
   (alookup s.layouts (t, p)).getD ([0], [0], [])
+
+/-- the partition ids of topic `t` (which has `n` entries) in stored order -/
+def partIdsOf (s : Store) (t n : Nat) : List Nat := (alookup s.partIds t).getD (List.range n)
 
 /-- one call of a Store method with its arguments -/
 inductive Call where
@@ -143,7 +155,11 @@ def exec (s : Store) : Call → Store
     | none => s
     | some parts => if n ≤ parts then s else
         { s with topics := aset s.topics t n,
-                 configs := aset s.configs t { ((alookup s.configs t).getD ⟨parts, -1⟩) with partitions := n } }
+                 configs := aset s.configs t { ((alookup s.configs t).getD ⟨parts, -1⟩) with partitions := n },
+                 -- appended entries carry ids len..n-1 (`Partition: i` for i from the current LENGTH)
+                 partIds := match alookup s.partIds t with
+                   | none => s.partIds
+                   | some ids => aset s.partIds t (ids ++ (List.range (n - parts)).map (· + parts)) }
   | .createTopic t n =>
     if n = 0 ∨ (alookup s.topics t).isSome ∨ s.brokers = 0 then s
     else { s with topics := s.topics ++ [(t, n)], configs := aset s.configs t ⟨n, -1⟩ }
@@ -151,7 +167,8 @@ def exec (s : Store) : Call → Store
     match alookup s.topics t with
     | none => s
     | some _ => { s with topics := aerase s.topics t, nextOffsets := s.nextOffsets.filter fun e => !(decide (e.1.1 = t)),
-                         layouts := s.layouts.filter fun e => !(decide (e.1.1 = t)) }
+                         layouts := s.layouts.filter fun e => !(decide (e.1.1 = t)),
+                         partIds := aerase s.partIds t }
 
 def runCalls (s : Store) (cs : List Call) : Store := cs.foldl exec s
 
@@ -206,10 +223,12 @@ def runTool (s : Store) : ToolCall → Store × Result
     (s1, .topics none (sortBy (·.1) (metadataTopics s [])))
   | .describeTopics names =>
     let s1 := exec s (.metadata names)
+    -- canonical output: topics by name, partitions by id (stable: entries with equal ids keep stored order);
+    -- the ORDER in which the tool lists partitions is not part of C40, the stored order is (snapshots)
     (s1, .topicDetails (sortBy (·.1) ((metadataTopics s names).map fun e =>
-      (e.1, e.2.2, (List.range e.2.1).map fun p =>
-        let l := partitionLayout s e.1 p
-        (⟨p, l.1, l.2.1, l.2.2⟩ : PartInfo)))))
+      (e.1, e.2.2, sortBy (·.id) ((partIdsOf s e.1 e.2.1).zipIdx.map fun ip =>
+        let l := partitionLayout s e.1 ip.2
+        (⟨ip.1, l.1, l.2.1, l.2.2⟩ : PartInfo))))))
   | .listGroups =>
     let s1 := exec s .listConsumerGroups
     (s1, .groups (sortBy (·.1) (s.groups.map fun e => (e.1, e.2.state, e.2.members.length))))
@@ -222,7 +241,7 @@ def runTool (s : Store) : ToolCall → Store × Result
   | .fetchOffsets none _ => (s, .error)
   | .fetchOffsets (some g) topics =>
     let s1 := exec s (.metadata topics)
-    let tps := (metadataTopics s topics).flatMap fun e => (List.range e.2.1).map fun p => (e.1, p)
+    let tps := (metadataTopics s topics).flatMap fun e => (partIdsOf s e.1 e.2.1).map fun p => (e.1, p)
     let s2 := runCalls s1 (tps.map fun tp => .fetchConsumerOffset g tp.1 tp.2)
     (s2, .offsets (sortBy (fun e => e.1 * 1000 + e.2.1)
       (tps.map fun tp => (tp.1, tp.2, (fetchConsumerOffset s g tp.1 tp.2).1, (fetchConsumerOffset s g tp.1 tp.2).2))))
@@ -238,27 +257,138 @@ def runTool (s : Store) : ToolCall → Store × Result
 
 Lean values are immutable, so "the handler sorted the slice it got from `Metadata`" can only hurt a
 model in which returned slices are REFERENCES.  As for C09's cache, slices live in a heap of
-buffers; the store owns some buffer ids (its `Replicas` / `ISR` / `OfflineReplicas` backing arrays),
-a read returns buffer ids, and a handler may overwrite any buffer it was handed. -/
+buffers.  The heap is typed and NESTED exactly like `ClusterMetadata.Topics`:
 
-structure HStore where
-  heap : List (List Nat)       -- buffer id ↦ contents now
-  owned : List Nat             -- buffer ids referenced from the store's state
+  topics array  `[]MetadataTopic`      elements carry a slice header `Partitions` (id of a partitions array)
+  partitions array `[]MetadataPartition` elements carry three slice headers `Replicas`/`ISR`/`OfflineReplicas`
+  int array     `[]int32`
+
+so EVERY slice reachable from what `Metadata` returns is covered (the topics array, every partitions
+array, every replica/ISR/offline array).  The store references one topics array (`root` =
+`s.state.Topics`); a read returns the id of a topics array; a handler may overwrite any buffer reachable
+from what it was handed, at any level, with anything. -/
+
+structure HPart where
+  id : Nat
+  leader : Nat
+  replicas : Nat     -- ids of int arrays (slice headers)
+  isr : Nat
+  offline : Nat
 deriving Repr, DecidableEq
 
-/-- what the store's state currently holds, in stored order -/
-def HStore.view (h : HStore) : List (List Nat) := h.owned.map fun b => h.heap.getD b []
+structure HTopic where
+  name : Nat
+  err : Nat
+  parts : Nat        -- id of a partitions array (slice header)
+deriving Repr, DecidableEq
 
-/-- `cloneMetadata`: every owned buffer is copied into a fresh buffer; the copies are returned -/
-def readCopy (h : HStore) : HStore × List Nat :=
-  ({ h with heap := h.heap ++ h.view }, (List.range h.owned.length).map (· + h.heap.length))
+structure Heap where
+  ints : List (List Nat)
+  parts : List (List HPart)
+  topics : List (List HTopic)
+deriving Repr, DecidableEq
 
-/-- a read that skips the deep clone (what `filterTopics(s.state.Topics, …)` would do): the store's
-own buffers are handed out -/
-def readAlias (h : HStore) : HStore × List Nat := (h, h.owned)
+structure HStore where
+  heap : Heap
+  root : Nat         -- the topics array the store's state references
+deriving Repr, DecidableEq
 
-/-- the handler overwrites a buffer it holds (e.g. `sort.Slice` on the slice it was given) -/
-def handlerWrite (h : HStore) (b : Nat) (data : List Nat) : HStore := { h with heap := h.heap.set b data }
+structure VPart where
+  id : Nat
+  leader : Nat
+  replicas : List Nat
+  isr : List Nat
+  offline : List Nat
+deriving Repr, DecidableEq
+
+structure VTopic where
+  name : Nat
+  err : Nat
+  parts : List VPart
+deriving Repr, DecidableEq
+
+def Heap.viewPart (h : Heap) (p : HPart) : VPart :=
+  ⟨p.id, p.leader, h.ints.getD p.replicas [], h.ints.getD p.isr [], h.ints.getD p.offline []⟩
+
+def Heap.viewTopic (h : Heap) (t : HTopic) : VTopic :=
+  ⟨t.name, t.err, (h.parts.getD t.parts []).map h.viewPart⟩
+
+/-- what the store's state currently holds, fully dereferenced, every list in stored order -/
+def HStore.view (s : HStore) : List VTopic := (s.heap.topics.getD s.root []).map s.heap.viewTopic
+
+/-- `clonePartitions` body for one entry: three `cloneInt32Slice` allocations -/
+def clonePart (h : Heap) (p : HPart) : Heap × HPart :=
+  ({ h with ints := h.ints ++ [h.ints.getD p.replicas [], h.ints.getD p.isr [], h.ints.getD p.offline []] },
+   { p with replicas := h.ints.length, isr := h.ints.length + 1, offline := h.ints.length + 2 })
+
+def cloneParts (h : Heap) : List HPart → Heap × List HPart
+  | [] => (h, [])
+  | p :: ps =>
+    let r := clonePart h p
+    let rs := cloneParts r.1 ps
+    (rs.1, r.2 :: rs.2)
+
+/-- `cloneTopics` body for one entry: a fresh partitions array holding cloned entries -/
+def cloneTopic (h : Heap) (t : HTopic) : Heap × HTopic :=
+  let r := cloneParts h (h.parts.getD t.parts [])
+  ({ r.1 with parts := r.1.parts ++ [r.2] }, { t with parts := r.1.parts.length })
+
+def cloneTopicsL (h : Heap) : List HTopic → Heap × List HTopic
+  | [] => (h, [])
+  | t :: ts =>
+    let r := cloneTopic h t
+    let rs := cloneTopicsL r.1 ts
+    (rs.1, r.2 :: rs.2)
+
+/-- `cloneMetadata` (+ `filterTopics` on the clone): a fresh topics array of deep-cloned topics; its id is returned -/
+def readCopy (s : HStore) : HStore × Nat :=
+  let r := cloneTopicsL s.heap (s.heap.topics.getD s.root [])
+  ({ s with heap := { r.1 with topics := r.1.topics ++ [r.2] } }, r.1.topics.length)
+
+/-- a read that skips the deep clone and filters the store's own topics (`filterTopics(s.state.Topics, …)`):
+a FRESH topics array, but its elements are the store's `MetadataTopic` structs copied BY VALUE — their
+partitions arrays (and through them every replica array) stay shared with the store -/
+def readShallow (s : HStore) : HStore × Nat :=
+  ({ s with heap := { s.heap with topics := s.heap.topics ++ [s.heap.topics.getD s.root []] } }, s.heap.topics.length)
+
+/-- buffer ids, per level -/
+structure BufSet where
+  ints : List Nat
+  parts : List Nat
+  topics : List Nat
+deriving Repr, DecidableEq
+
+/-- every buffer reachable from the topics array `root` -/
+def Heap.reach (h : Heap) (root : Nat) : BufSet :=
+  let ts := h.topics.getD root []
+  ⟨(ts.flatMap fun t => h.parts.getD t.parts []).flatMap fun p => [p.replicas, p.isr, p.offline],
+   ts.map (·.parts), [root]⟩
+
+/-- the handler overwrites a buffer it holds, at any level (e.g. `sort.Slice(topic.Partitions, …)`) -/
+inductive Write where
+  | ints (b : Nat) (d : List Nat)
+  | parts (b : Nat) (d : List HPart)
+  | topics (b : Nat) (d : List HTopic)
+deriving Repr
+
+def Write.inSet (bs : BufSet) : Write → Prop
+  | .ints b _ => b ∈ bs.ints
+  | .parts b _ => b ∈ bs.parts
+  | .topics b _ => b ∈ bs.topics
+
+instance (bs : BufSet) (w : Write) : Decidable (w.inSet bs) := by
+  cases w <;> (simp only [Write.inSet]; infer_instance)
+
+/-- the write's target lies beyond heap `h0` (it was allocated after `h0`) -/
+def Write.above (h0 : Heap) : Write → Prop
+  | .ints b _ => h0.ints.length ≤ b
+  | .parts b _ => h0.parts.length ≤ b
+  | .topics b _ => h0.topics.length ≤ b
+
+def handlerWrite (s : HStore) : Write → HStore
+  | .ints b d => { s with heap := { s.heap with ints := s.heap.ints.set b d } }
+  | .parts b d => { s with heap := { s.heap with parts := s.heap.parts.set b d } }
+  | .topics b d => { s with heap := { s.heap with topics := s.heap.topics.set b d } }
 
 /-- what the go/ast pass extracts per registered tool -/
 structure ToolFacts where
